@@ -785,6 +785,12 @@ def check_c16(tier, seed, log=print):
              F.enum([], ['#[regex("[a-f]+x")] A,', '#[regex("[g-m]+y")] B,', '#[regex("[n-z]+z")] C,', '#[regex("[0-4]+w")] Dd,', '#[regex("[5-9]+v")] E,', '#[regex("[!-/]+u")] Ff,']),
              F.enum([], ['#[regex("a", priority = 1)] A,', '#[regex("[a-z]", priority = 1)] B,', '#[regex("[a-c]", priority = 1)] C,'])]
     srcs += [c['src'] for c in F.fam_c08(R, 30)]
+    # definitions that share the text of a literal but differ in its context (the subpattern a reference is bound to, the
+    # flags, the lexer mode): the output for a definition must not depend on what was generated before it
+    c11 = [c['src'] for c in F.fam_c11(random.Random(seed), 6) if c['family'] in ('c11-nested', 'c11-edges', 'c11-sub')]
+    srcs += c11[:6] + c11[60:72] + c11[-6:]
+    srcs += [F.enum([], ['#[token("ab")] A,']), F.enum([], ['#[token("ab", ignore(case))] A,']), F.enum(['#[logos(utf8 = false)]'], ['#[token("ab")] A,']),
+             F.enum([], ['#[regex("a|é")] A,']), F.enum(['#[logos(utf8 = false)]'], ['#[regex("a|é")] A,']), F.enum([], ['#[regex("a|é", ignore(case))] A,'])]
     builds = {}
     bdir = os.path.join(P.HARNESS, 'target', 'debug', 'capture')
     builds['tailcall'] = bdir
@@ -803,8 +809,12 @@ def check_c16(tier, seed, log=print):
     for gen, binp in builds.items():
         runs = []
         for k in range(nproc):
-            o = subprocess.run([binp, '--threads', str(nthreads)], input=text, capture_output=True, text=True).stdout
+            o = subprocess.run([binp, '--threads', str(nthreads)] + (['--reverse'] if k % 2 else []), input=text, capture_output=True, text=True).stdout
             runs.append(o)
+        # one thread, first to last and last to first: whatever a definition's output inherits from definitions generated
+        # earlier in the process differs between these two
+        for extra in ([], ['--reverse']):
+            runs.append(subprocess.run([binp, '--threads', '1'] + extra, input=text, capture_output=True, text=True).stdout)
         table = {}
         for k, o in enumerate(runs):
             for ln in o.split('\n'):
@@ -849,7 +859,7 @@ def check_c16(tier, seed, log=print):
     # drift guard (informational): hash-container iteration sites in logos-codegen
     sites = scan_hash_sites()
     run.coverage.update(dict(evaluations=n + cli_n, distinct_nontrivial=len(nontriv),
-                             rule='every definition generated on %d threads in each of %d fresh processes (every HashMap gets a fresh RandomState per instance and per process), with both code generators; '
+                             rule='every definition generated on %d threads (each walking the definitions in its own order) in each of %d fresh processes (every HashMap gets a fresh RandomState per instance and per process), plus one thread first-to-last and one last-to-first, with both code generators; the corpus contains definitions that share the text of a literal but differ in its context (subpattern binding, flags, mode); '
                                   'hash of the generated code and of the captured graph must coincide across all of them; logos-cli twice plus --check; non-trivial = compared at least twice' % (nthreads, nproc),
                              samples=samples, hash_iteration_sites=sites))
     run.assumptions += ['partial: the theorems cover the modelled shapes of hash-container use (sort by unique key, membership, singleton test, union); that every site has one of these shapes is by inspection, listed in hash_iteration_sites',
